@@ -157,7 +157,8 @@ def handle : Handler := fun op inp impl => do
         let r : StepResult := { w := w', roGone := gone, requeue := ← fBool impl "requeue", err := ← fBool impl "err",
                                 writes := if w'.br == w.br && w'.net == w.net && w'.wl == w.wl then [] else ["changed"] }
         holds := holds ++ RV.Oracle.RolloutSM.stepOracles w r ++ RV.Oracle.RolloutSM.canaryStyleOracles w r
-        if RV.Oracle.RolloutSM.firstStepLeft w r then tags := tags ++ ["cs:first-step-left-init"]
+        if RV.Oracle.RolloutSM.firstStepLeft w r then tags := tags ++ ["first-step-pinned:checked"]
+        if RV.Oracle.RolloutSM.bypassTaken w r then tags := tags ++ ["bypass:taken"]
       | none => pure ()
     match reconcile w with
     | .panic => return { model := mkObj [("panic", strJ "?")], holds := holds, tags := "panic" :: tags }
